@@ -1,4 +1,5 @@
-"""C10: group membership. MemberCB.tla (Couchbase heart-beat membership) / MemberSD.tla (leader-assigned numbering) are
+"""C10: group membership. MemberCB.tla (Couchbase heart-beat membership) / MemberSD.tla (leader-assigned numbering) / MemberDyn.tla (numbering
+requested over the instance's API) are
 model-checked against the monitor MemberMon.tla; TLC-generated behaviours are executed on groups of real instances
 (vdrive -spec membercb | membersd); MonMember.tla (TLC) judges the events recorded from the real code."""
 import os, re, json, time, shutil
@@ -14,6 +15,13 @@ PARTS = {
         "sims": [("SimMemberCB", "SimMemberCB", 40, 500, 60), ("SimMemberCB", "SimMemberCB8", 12, 150, 120)],
         "driver": "membercb",
         "scenarios": [("ReplayMemberCB", "wit_membercb.ndjson")],
+    },
+    "dyn": {
+        "module": "MCMemberDyn",
+        "exhaustive": {"quick": [("MCMemberDynQ", "3 instances, 4 requests of any numbering n/t (t <= 3) to any instance, discovery queries at any moment")],
+                       "thorough": [("MCMemberDyn", "3 instances, 5 requests of any numbering n/t (t <= 3) to any instance, discovery queries at any moment")]},
+        "sims": [("SimMemberDyn", "SimMemberDyn", 30, 400, 24)],
+        "driver": "memberdyn",
     },
     "sd": {
         "module": "MCMemberSD",
@@ -115,7 +123,7 @@ def run(prop, tier, seed):
                     allsch.append(s)
         for i, s in enumerate(allsch):
             s["id"] = i + 1; s["isolate"] = True; s["nvb"] = 8
-        lines, summ = vlib.drive(vdrive, [s for s in allsch if s["driver"] == "membercb"], work, shards=int(os.environ.get("VERIF_SHARDS", "8")))
+        lines, summ = vlib.drive(vdrive, [s for s in allsch if s["driver"] in ("membercb", "memberdyn")], work, shards=int(os.environ.get("VERIF_SHARDS", "8")))
         l2, s2 = drive_sd(vsd, [s for s in allsch if s["driver"] == "membersd"], work)
         lines += l2
         for k in summ:
@@ -156,7 +164,10 @@ def run(prop, tier, seed):
                            "testing/synctest (virtual time, go1.26.8); the pod-to-pod rpc client is replaced by direct calls into the peer's real rpc "
                            "Handler (fails exactly when one end is dead); the election callbacks of stream/leader_election.go are reproduced call by "
                            "call without dialling; the Kubernetes lease itself is the environment's choice",
-                           "static and dynamic membership hold the configured / last requested numbering by construction and are not modelled",
+                           "dynamic membership: real api.NewAPI servers (PUT /membership/info over HTTP on local ports), a real event bus and a real "
+                           "stream.NewVBucketDiscovery of type dynamic per instance; requests to one instance are separated by quiet periods (two "
+                           "publications in flight on the bus are not ordered); the orchestrator's numbering is the schedule's",
+                           "static and stateful-set membership hold the configured numbering by construction and are not modelled",
                            "Couchbase membership: real couchbase.NewCBMembership instances over real couchbase.NewClient connections to a "
                            "simulated node (harness/simnode: memcached binary protocol, one front-end per instance on a shared document store); "
                            "monitor()/heartbeat() rounds are run through verif exports, the background loops sleep (1 h intervals)",
